@@ -133,6 +133,21 @@ class Widths:
                 for flow, shape, conds, ln, arr in ds:
                     decl.setdefault(name, []).append(self._shape_is_bit(shape) and not arr)
         self.global_bits = {n for n, v in decl.items() if all(v)} | (PROTOCOL_BITS - {n for n, v in decl.items() if not all(v)})
+        # attributes that every class of the package which has them creates as a plain one-bit `Signal()` (the r_en / w_en strobes of
+        # a shadow chunk): one bit wide whichever object they are read from
+        import ast as _ast0
+        made = {}
+        for f_ in index.all_functions():
+            for st in _ast0.walk(f_.node):
+                if isinstance(st, _ast0.Assign):
+                    for t_ in st.targets:
+                        if isinstance(t_, _ast0.Attribute) and isinstance(t_.value, _ast0.Name) and t_.value.id == "self":
+                            v_ = st.value
+                            one = isinstance(v_, _ast0.Call) and isinstance(v_.func, _ast0.Name) and v_.func.id == "Signal" and \
+                                not any(k_.arg in ("shape",) or k_.arg is None for k_ in v_.keywords) and \
+                                (not v_.args or (isinstance(v_.args[0], _ast0.Constant) and v_.args[0].value == 1))
+                            made.setdefault(t_.attr.lstrip("_"), []).append(bool(one))
+        self.global_bits |= {n for n, v in made.items() if all(v) and n not in decl}
         self.own = {}
         self.own_signal = set()
         self.private_signals = set()
